@@ -21,6 +21,7 @@ import (
 	"sort"
 	"strings"
 	"sync"
+	"sync/atomic"
 	"time"
 
 	"google.golang.org/grpc"
@@ -120,6 +121,7 @@ type gNode struct {
 }
 
 type vnet struct {
+	resuming  atomic.Int64 // callers that have been answered and have not resumed yet
 	mu        sync.Mutex
 	inflight  []*gMsg
 	delivered []*gMsg
@@ -190,7 +192,15 @@ func (n *vnet) verifStubPark(from, to, kind string, payload proto.Message) gRepl
 	}
 	n.inflight = append(n.inflight, m)
 	n.mu.Unlock()
-	return <-m.reply
+	r := <-m.reply
+	n.resuming.Add(-1) // the caller is running again: from here on its stack shows it as busy
+	return r
+}
+
+// answer hands a parked caller its reply and counts it as "resuming" until it runs again.
+func (n *vnet) answer(m *gMsg, r gReply) {
+	n.resuming.Add(1)
+	m.reply <- r
 }
 
 func (n *vnet) itemOfHash(h []byte) string {
@@ -207,6 +217,10 @@ func (n *vnet) itemOfHash(h []byte) string {
 
 // settle waits until no goroutine is running inside the gossip package outside a parked stub call.
 func (n *vnet) settle() {
+	// a caller that has been answered but has not been scheduled yet still looks parked: wait until it runs
+	for i := 0; i < 200000 && n.resuming.Load() > 0; i++ {
+		time.Sleep(50 * time.Microsecond)
+	}
 	stable := 0
 	for i := 0; i < 4000 && stable < 2; i++ {
 		var buf bytes.Buffer
@@ -216,8 +230,8 @@ func (n *vnet) settle() {
 			if !strings.Contains(g, "Computantis/src/gossip.") {
 				continue
 			}
-			if strings.Contains(g, "verifStubPark") {
-				continue
+			if strings.Contains(g, "verifStubPark") && strings.Contains(strings.SplitN(g, "\n", 2)[0], "chan receive") {
+				continue // parked in the virtual network, waiting for the harness to deliver its message
 			}
 			if strings.Contains(g, "runVertexGossipProcess") && strings.Contains(g, "[select") && !strings.Contains(g, "gossipVertex(") {
 				continue // the origin loop waiting for the next vertex
@@ -318,7 +332,7 @@ func newVnet(b *gBehaviour, enc *json.Encoder) (*vnet, error) {
 func (n *vnet) close() {
 	n.mu.Lock()
 	for _, m := range n.inflight {
-		m.reply <- gReply{err: fmt.Errorf("network closed")}
+		n.answer(m, gReply{err: fmt.Errorf("network closed")})
 	}
 	n.inflight = nil
 	n.mu.Unlock()
@@ -512,7 +526,7 @@ func (n *vnet) deliver(m *gMsg, dup bool) {
 		}
 	}()
 	if !dup && m.reply != nil {
-		m.reply <- r
+		n.answer(m, r)
 	}
 	n.settle()
 	res := "ok"
@@ -833,7 +847,7 @@ func (n *vnet) run() {
 			if n.bad[m.to] {
 				// the adversary's own node is played by the harness: it absorbs the message
 				if m.reply != nil {
-					m.reply <- gReply{msg: &emptypb.Empty{}}
+					n.answer(m, gReply{msg: &emptypb.Empty{}})
 				}
 				n.mu.Lock()
 				n.delivered = append(n.delivered, m)
@@ -894,7 +908,7 @@ func (n *vnet) run() {
 			}
 			if n.bad[m.to] {
 				if m.reply != nil {
-					m.reply <- gReply{msg: &emptypb.Empty{}}
+					n.answer(m, gReply{msg: &emptypb.Empty{}})
 				}
 				n.mu.Lock()
 				n.delivered = append(n.delivered, m)
